@@ -62,12 +62,11 @@ def readStreamData (inp : Bytes) (off : Nat) (declared : Option Nat) : Except Er
   | some e =>
     let data := r0.drop e
     let start := off + 6 + e
-    -- `endstreamAt(origReader, start+declared)`: the int64 sum wraps for lengths near 2^63, the
-    -- `ReadAt` at a negative offset fails, and that error is returned (no recovery)
-    let overflow := match declared with
-      | some d => decide (start + d ≥ 9223372036854775808)
-      | none => false
-    if overflow then .error .other else
+    -- `declared <= math.MaxInt64-start`: a length whose end overflows int64 is a broken length
+    -- (the extent is recovered by the search for `endstream`)
+    let declared := match declared with
+      | some d => if start + d ≥ 9223372036854775808 then none else some d
+      | none => none
     let useDeclared := match declared with
       | some d => endstreamAt (data.drop d)
       | none => false
